@@ -78,6 +78,9 @@ def configs(tier, seed):
         cfgs.append(dict(backend='dict', backoff=bo, n=2, messages=1, harness_wait=True, slow_ops=['set_timestamp', 'set_recipients_delivered', 'increment_attempts'],
                          d=3, dd=2, menu=MENU, script=[['enqueue', 0], ['announce', 0]]))
     cfgs.append(dict(backend='redis', backoff='r0x2', n=2, messages=1, redis_yields=['hset', 'hincrby'], d=3, dd=2, menu=MENU))
+    # a stored message that reaches the restarted queue twice, from the start-up listing and from a pending announcement,
+    # with the round trips of either path taking their time
+    cfgs.append(dict(backend='redis', backoff='r10', n=2, messages=0, prestored=1, redis_yields=['hget', 'hmget', 'blpop', 'keys'], d=3, dd=1, menu=MENU))
     # relays that answer with a sequence (list) instead of a mapping
     for b in ('dict', 'disk', 'shelf'):
         cfgs.append(dict(backend=b, backoff='r0x2', n=2, messages=1, d=0, dd=3, menu=dict(MENU, sequences=True)))
